@@ -26,6 +26,16 @@ def generate(rng, tier, n):
     while len(cases) < n:
         t, st = gen_tree(rng, max_nodes=rng.choice([8, 20, 45]), max_depth=rng.choice([3, 5, 6]),
                          single_rate=rng.choice([0.1, 0.3]))
+        if cid == 2:
+            # two infosets of one player offering the same actions in a different order
+            from ..gen import tree_stats
+            pl_ = rng.choice([1, 2])
+            L = lambda: {"t": f2b(rng.uniform(-3, 3))}
+            t = {"c": None, "o": [[f2b(1.0), {"p": pl_, "i": 1, "a": [[1, L()], [2, L()], [3, L()]]}],
+                                  [f2b(2.0), {"p": pl_, "i": 2, "a": [[3, L()], [1, L()], [2, L()]]}],
+                                  [f2b(1.0), {"p": 3 - pl_, "i": 3, "a": [[2, L()], [1, L()]]}],
+                                  [f2b(1.0), {"p": 3 - pl_, "i": 4, "a": [[1, L()], [2, L()]]}]]}
+            st = tree_stats(t)
         if cid == 1:
             from ..solvers import needle_tree
             t, st = needle_tree(rng, rng.choice([65, 70, 130]), pl=rng.choice([1, 2]))     # wider than a machine word
@@ -47,6 +57,19 @@ def generate(rng, tier, n):
                         w = b2f(ap[1])
                         if 0.0 < w <= 1.0:
                             ap[1] = f2b(w * k)
+            if rng.random() < 0.25:
+                # weights given more than once (an action repeated in one list, or the infoset listed twice): the later
+                # entry overrides the earlier one, the row is normalised by the total of the weights that count
+                ents = [e for pl_ in nm for e in pl_ if len(e[1]) >= 2]
+                if ents:
+                    e = rng.choice(ents)
+                    if rng.random() < 0.5:
+                        a, w = rng.choice(e[1])
+                        e[1].append([a, f2b(rng.choice([0.0, 0.5, 2.0, b2f(w) * 3 + 0.25]))])
+                    else:
+                        for pl_ in nm:
+                            if e in pl_:
+                                pl_.append([e[0], [[a, f2b(rng.choice([0.0, 1.0, 0.25, rng.random()]))] for a, _ in e[1]]])
             s = cb.import_(nm, fast=rng.random() < 0.5)
             if src_kind == "truncate":
                 s = cb.truncate(s, rng.choice([0.0, 0.1, 0.3, 0.5]))
